@@ -181,6 +181,26 @@ impl Monitor for C20 {
                                         cov.sample(json!({"ix": name, "a_to_b": a.a_to_b, "exact_in": a.is_input, "amount": a.amount, "limit": a.limit.to_string(), "program": [sum_in.to_string(), sum_out.to_string(), sum_fee.to_string()], "sdk": [q_in, q_out, q.trade_fee], "adaptive": adaptive.is_some()}));
                                     }
                                 }
+                                // token-amount-for-liquidity functions on the arguments of every executed step
+                                for st in &o.trace.steps {
+                                    if st.sqrt_price_next == st.sqrt_price_start {
+                                        continue;
+                                    }
+                                    let (din, dout) = if o.a_to_b {
+                                        (sdk::try_get_amount_delta_a(st.sqrt_price_start, st.sqrt_price_next, st.liquidity, true), sdk::try_get_amount_delta_b(st.sqrt_price_start, st.sqrt_price_next, st.liquidity, false))
+                                    } else {
+                                        (sdk::try_get_amount_delta_b(st.sqrt_price_start, st.sqrt_price_next, st.liquidity, true), sdk::try_get_amount_delta_a(st.sqrt_price_start, st.sqrt_price_next, st.liquidity, false))
+                                    };
+                                    cov.probe("sdk_amount_delta_checked_on_step");
+                                    let out_ok = match dout {
+                                        Ok(x) => x == st.amount_out || (!o.is_input && x >= st.amount_out),
+                                        Err(_) => false,
+                                    };
+                                    if din != Ok(st.amount_in) || !out_ok {
+                                        out.push(viol("sdk_amount_delta_differs", ev.idx, format!("step {} -> {} L={}: program in {} out {}; SDK deltas in {:?} out {:?}", st.sqrt_price_start, st.sqrt_price_next, st.liquidity, st.amount_in, st.amount_out, din, dout)));
+                                        break;
+                                    }
+                                }
                                 // fee rate range reported by the SDK covers the rates charged
                                 let rmin = o.trace.steps.iter().map(|s| s.total_fee_rate).min().unwrap_or(0);
                                 let rmax = o.trace.steps.iter().map(|s| s.total_fee_rate).max().unwrap_or(0);
@@ -253,6 +273,28 @@ impl Monitor for C20 {
                                 _ => out.push(viol("sdk_fails_where_program_succeeds", ev.idx, "swap_quote_by_output_token failed on a swap the program executed".into())),
                             }
                         }
+                    }
+                }
+                "increase_liquidity" | "increase_liquidity_v2" | "decrease_liquidity" | "decrease_liquidity_v2" if post.is_none() => {
+                    // the program rejected the amounts as overflowing: the SDK must report an error too
+                    if !matches!(code, Some(6030) | Some(6031) | Some(6033) | Some(6008) | Some(6007)) {
+                        continue;
+                    }
+                    let wk = c.a("whirlpool");
+                    let (Some(pool), Some(pos)) = (pre.data(&wk).and_then(decode::pool), pre.data(&c.a("position")).and_then(decode::position)) else { continue };
+                    let (liq, _, _) = wpix::liq_args(&c);
+                    let inc = name.starts_with("increase");
+                    let fa = sdk_fee(pre, &pool.mint_a, ev.clock.epoch);
+                    let fb = sdk_fee(pre, &pool.mint_b, ev.clock.epoch);
+                    let r_ok = if inc {
+                        std::panic::catch_unwind(std::panic::AssertUnwindSafe(|| sdk::increase_liquidity_quote(liq, 0, pool.sqrt_price, pos.lower, pos.upper, fa, fb).is_ok())).unwrap_or(false)
+                    } else {
+                        std::panic::catch_unwind(std::panic::AssertUnwindSafe(|| sdk::decrease_liquidity_quote(liq, 0, pool.sqrt_price, pos.lower, pos.upper, fa, fb).is_ok())).unwrap_or(false)
+                    };
+                    cov.eval(format!("{}|program_overflow={:?}|sdk_ok={}", name, code, r_ok));
+                    cov.probe("program_rejected_amounts_as_overflowing");
+                    if r_ok {
+                        out.push(viol("sdk_quotes_overflowing_amounts", ev.idx, format!("{} L={} on {}..{} at price {}: the program rejects the amounts as overflowing ({:?}) but the SDK returns a quote", name, liq, pos.lower, pos.upper, pool.sqrt_price, code)));
                     }
                 }
                 "increase_liquidity" | "increase_liquidity_v2" | "decrease_liquidity" | "decrease_liquidity_v2" => {
